@@ -186,7 +186,13 @@ def run(chk):
             s = S(kind)
             seen = {}
             orig = s.rar.env.local['_rar_step_init']
-            s.rar.env.local['_rar_step_init'] = lambda a, b: (seen.update(a=a, b=b) or (lambda o: o[2], lambda o: o[2]))
+            names = [a.arg for a in orig.node.args.args][:2] if getattr(orig, 'node', None) is not None else ['a', 'b']
+
+            def stub(*a, names=names, **k):
+                vals = list(a) + [k[n] for n in names[len(a):]]
+                seen.update(a=vals[0], b=vals[1])
+                return (lambda o: o[2], lambda o: o[2])
+            s.rar.env.local['_rar_step_init'] = stub
             try:
                 s.fn('init_rar')(freeze(s.data))
             finally:
